@@ -156,3 +156,27 @@ func runSelftest(repo, verif, prop string, known []KnownFinding, baseline map[st
 	}
 	return out
 }
+
+type auditResult struct {
+	OK     bool
+	Output string
+	Secs   float64
+}
+
+// runAudit runs the executable audit of assumed extern contracts (/verif/audit).
+func runAudit(verif string) *auditResult {
+	t0 := time.Now()
+	cmd := exec.Command("go", "test", "-count=1", "-vet=off", "./...")
+	cmd.Dir = filepath.Join(verif, "audit")
+	cmd.Env = append(os.Environ(), "GOFLAGS=-mod=mod", "GOPROXY=off", "GOSUMDB=off", "GOTOOLCHAIN=local")
+	out, err := cmd.CombinedOutput()
+	res := &auditResult{OK: err == nil, Secs: time.Since(t0).Seconds()}
+	if err != nil {
+		o := string(out)
+		if len(o) > 1500 {
+			o = o[len(o)-1500:]
+		}
+		res.Output = strings.ReplaceAll(o, "\n", " | ")
+	}
+	return res
+}
